@@ -33,7 +33,8 @@ pub async fn node_world_opt(ctx: &WorkerCtx, peer_flags: u64, start: bool) -> Re
     if crate::world::pre_start_use() {
         // identifiers made before the node learns its creation from EPMD
         let _ = node.make_reference();
-        let _ = node.spawn(crate::procs::Rec { name: "early".into(), log: Arc::new(Mutex::new(vec![])) }).await;
+        crate::world::clear_early_ids();
+        for i in 0..2 { if let Ok(p) = node.spawn(crate::procs::Rec { name: format!("early{}", i), log: Arc::new(Mutex::new(vec![])) }).await { crate::world::note_early_id((p.id, p.serial, p.creation)); } }
         let _ = node.make_reference();
     }
     if start { node.start(0).await.map_err(|e| format!("node.start: {}", e))?; }
@@ -334,6 +335,73 @@ fn straggler_inner(n: usize, ctx: &WorkerCtx) -> ExecResult {
     })
 }
 
+/// A node that connects out and makes a call before it is started: the call times out unanswered, the node is started (EPMD
+/// assigns `creation`, which may equal the creation the node had so far), a second call is made, and the peer first sends
+/// the late reply of the first call, then the reply of the second. The second call returns its own reply.
+fn prestart_straggler_exec(creation: &u32, ctx: &WorkerCtx) -> ExecResult {
+    let creation = *creation;
+    crate::world::set_epmd_creation(Some(creation));
+    let out = run_rt(async move {
+        let mut res = ExecResult::default();
+        let w = World::new(ctx.heartbeat.clone(), &ctx.listeners).await;
+        let mut node = Node::new("me@127.0.0.1", crate::world::COOKIE);
+        // connect out while the peer side of the handshake runs in the same task (no shared ownership of the node yet)
+        let mut peer = {
+            let conn = node.connect(PEER_NAME);
+            let side = async { let mut p = w.accept_peer().await.ok_or("library never connected to the peer".to_string())?; w.peer_handshake(&mut p, flags_default()).await?; Ok::<_, String>(p) };
+            let (c, p) = tokio::join!(conn, side);
+            match (c, p) { (Ok(()), Ok(p)) => p, (c, p) => { res.violations.push(("an unstarted node could not connect out".into(), json!({"connect": format!("{:?}", c.map_err(|e| e.to_string())), "peer_side": p.err()}))); return res; } }
+        };
+        tokio::time::pause();
+        w.gates.set_active(&[]);
+        // call 0: never answered
+        let mut first_to: Option<RefVal> = None;
+        let r0 = {
+            let fut = node.rpc_call_raw_with_timeout(PEER_NAME, "m", "f", vec![OwnedTerm::Integer(0)], Duration::from_secs(2));
+            tokio::pin!(fut);
+            let mut rounds = 0u32;
+            loop {
+                tokio::select! { biased; r = &mut fut => break r, _ = tokio::task::yield_now() => {
+                    w.beat(); peer.pump(); rounds += 1;
+                    if first_to.is_none() { let (frames, _) = peer.dist_frames(); for f in &frames { if let Ok(m) = read_pass_through(f) { if let Some((from, 0)) = marker_of_request(&m) { first_to = Some(from); } } } }
+                    if rounds == 400 { tokio::time::advance(Duration::from_secs(3)).await; }
+                    if rounds > 100_000 { break Err(edp_node::Error::RpcCancelled); }
+                } }
+            }
+        };
+        if !matches!(r0, Err(edp_node::Error::RpcTimeout(_))) || first_to.is_none() { res.violations.push(("an unanswered call on an unstarted node did not time out".into(), json!({"returned": format!("{:?}", r0.map_err(|e| e.to_string())), "request_seen": first_to.is_some()}))); return res; }
+        if let Err(e) = node.start(0).await { res.violations.push(("node.start failed".into(), json!({"error": e.to_string()}))); return res; }
+        let node = Arc::new(node);
+        let results: Arc<Mutex<Vec<CallResult>>> = Arc::new(Mutex::new(vec![]));
+        let probe = { let r = results.clone(); move || r.lock().unwrap().len() as u64 };
+        { let (node, results) = (node.clone(), results.clone()); tokio::spawn(async move {
+            let r = node.rpc_call_raw_with_timeout(PEER_NAME, "m", "f", vec![OwnedTerm::Integer(1)], Duration::from_secs(5)).await;
+            results.lock().unwrap().push(match r { Ok(v) => CallResult::Ok(format!("{:?}", v)), Err(edp_node::Error::RpcTimeout(_)) => CallResult::Timeout, Err(edp_node::Error::RpcCancelled) => CallResult::Cancelled, Err(e) => CallResult::Other(e.to_string()) });
+        }); }
+        w.settle(&mut peer, &probe).await;
+        let (frames, _) = peer.dist_frames();
+        let mut to: Option<RefVal> = None;
+        for f in &frames { if let Ok(m) = read_pass_through(f) { if let Some((from, 1)) = marker_of_request(&m) { to = Some(from); } } }
+        let Some(to) = to else { res.violations.push(("request of a call never reached the peer".into(), json!({"call": 1, "after": "start"}))); return res; };
+        let first_to = first_to.unwrap();
+        peer.send(&reply_frame(&first_to, 0)); // the late reply of the call made before the node was started
+        w.settle(&mut peer, &probe).await;
+        peer.send(&reply_frame(&to, 1));
+        w.settle(&mut peer, &probe).await;
+        let got = results.lock().unwrap().first().cloned();
+        let want = CallResult::Ok(format!("{:?}", expected_reply_term(1)));
+        if got.as_ref() != Some(&want) || vcore::refval::exact_eq(&first_to, &to) {
+            res.violations.push(("a call returned something other than the reply addressed to it".into(), json!({"call": "the first one after Node::start", "returned": format!("{:?}", got), "expected": format!("{:?}", want), "reply_to_before_start": first_to.short(), "reply_to_after_start": to.short(), "creation_assigned_by_epmd": creation})));
+        }
+        if node.pending_rpc_count() != 0 { res.violations.push(("bookkeeping remains after every call has returned".into(), json!({"pending": node.pending_rpc_count()}))); }
+        res.steps = 2;
+        res.outcome = format!("prestart straggler creation {}", creation);
+        res
+    });
+    crate::world::set_epmd_creation(None);
+    out
+}
+
 /// The peer stops reading while one caller's oversized request is being written (it holds the connection); a second
 /// caller with a short timeout queues behind it; time passes; the peer reads again but never answers. Both calls must
 /// return (timeout) and nothing may stay registered.
@@ -449,11 +517,13 @@ pub fn run(rep: &Report) -> Value {
     }
     let lens: Vec<(usize, u32)> = if thorough { vec![(70, 77), (70, 3), (300, 77), (300, 1)] } else { vec![(70, 77), (40, 3)] };
     let st_s = crate::explore::for_all(rep, "late reply of a finished call re-sent before each later reply", &lens, |n, ctx| straggler_exec(n, ctx));
+    let crs = vec![1u32, 2, 77];
+    let st_ps = crate::explore::for_all(rep, "a call made before Node::start, its late reply after a call made afterwards", &crs, |n, ctx| prestart_straggler_exec(n, ctx));
     let nf = vec![0usize, 1, 2, 3];
     let st_fn = crate::explore::for_all(rep, "calls failing on another connection between waiting calls", &nf, |n, ctx| failing_neighbour_exec(n, ctx));
     let sizes = vec![(24usize, false), (24, true)];
     let st_st = crate::explore::for_all(rep, "peer stops reading under an oversized request, second caller queued behind it", &sizes, |n, ctx| stalled_rpc_exec(n, ctx));
-    let states: u64 = all.iter().map(|(_, s)| s.executions).sum::<u64>() + st_s.executions + st_st.executions + st_fn.executions;
+    let states: u64 = all.iter().map(|(_, s)| s.executions).sum::<u64>() + st_s.executions + st_st.executions + st_fn.executions + st_ps.executions;
     let transitions: u64 = all.iter().map(|(_, s)| s.transitions).sum::<u64>() + st_s.transitions;
     let mut samples: Vec<Value> = vec![];
     for (_, s) in &all { samples.extend(s.samples.iter().take(2).cloned()); }
